@@ -390,6 +390,38 @@ def script(draw, min_blocks=1, max_blocks=4, kinds=BLOCK_KINDS, unsupported_p=0,
     return blocks
 
 
+
+# ------------------------------------------------------------------ dialect short forms (history / interference checks only)
+# statements the pinned tree accepts but whose value placement is not documented (so the reference-model checks do not generate
+# them); for the history checks (C14, C15) the oracle is the object's own isolated result, so any accepted text is a fair input.
+# (text, output mode it is usually parsed in)
+SHORT_FORMS = [
+    ("create table sales (salesid integer not null, listid integer not null, qtysold smallint) sortkey(listid);\n", "redshift"),
+    ("create table sales2 (salesid integer, listid integer) distkey(listid) sortkey(listid, salesid);\n", "redshift"),
+    ("create table sales3 (salesid integer encode zstd, listid integer) diststyle all;\n", "redshift"),
+    ("create temp table tmp_s (a int, b varchar(10) encode lzo) diststyle even compound sortkey (a, b);\n", "redshift"),
+    ("create table users (userid integer not null, username varchar(20));\n", "redshift"),
+    ("CREATE TABLE m (id int NOT NULL AUTO_INCREMENT, name varchar(20) CHARACTER SET utf8 COLLATE utf8_bin, PRIMARY KEY (id), KEY ix_n (name)) "
+     "ENGINE=InnoDB AUTO_INCREMENT=5 DEFAULT CHARSET=utf8;\n", "mysql"),
+    ("CREATE TABLE m2 (id int, st enum('a','b') DEFAULT 'a', ts timestamp DEFAULT CURRENT_TIMESTAMP ON UPDATE CURRENT_TIMESTAMP);\n", "mysql"),
+    ("CREATE TABLE o (id number(10) ENCRYPT SALT, v varchar2(10 char), c clob) STORAGE (INITIAL 64K NEXT 1M) TABLESPACE ts1;\n", "oracle"),
+    ("CREATE TABLE o2 (id number GENERATED ALWAYS AS IDENTITY, x int) ORGANIZATION INDEX;\n", "oracle"),
+    ("CREATE TABLE [dbo].[x] ([id] int IDENTITY(1,1) NOT NULL, [v] nvarchar(max), CONSTRAINT [pk_x] PRIMARY KEY CLUSTERED ([id] ASC) "
+     "WITH (PAD_INDEX = OFF) ON [PRIMARY]) ON [PRIMARY] TEXTIMAGE_ON [PRIMARY];\n", "mssql"),
+    ("CREATE TABLE `p.d.t` (x INT64 OPTIONS(description=\"d\"), ts TIMESTAMP) PARTITION BY DATE(ts) CLUSTER BY x OPTIONS(description=\"t\");\n", "bigquery"),
+    ("CREATE TABLE c (id int, extra text) INHERITS (parent);\nCREATE TABLE parent (id int);\n", "postgres"),
+    ("CREATE TABLE pr (id int, ts timestamptz) PARTITION BY RANGE (ts);\n", "postgres"),
+    ("CREATE EXTERNAL TABLE h (a int, b string) PARTITIONED BY (dt string) CLUSTERED BY (a) INTO 4 BUCKETS ROW FORMAT DELIMITED FIELDS TERMINATED BY ',' "
+     "ESCAPED BY '\\\\' STORED AS TEXTFILE LOCATION 's3://b/p';\n", "athena"),
+    ("CREATE EXTERNAL TABLE h2 (a int) STORED AS PARQUET LOCATION 'hdfs://x/y' TBLPROPERTIES ('k'='v');\n", "hql"),
+    ("create or replace table sf (id int autoincrement start 1 increment 1, v variant) cluster by (id) data_retention_time_in_days = 1 "
+     "change_tracking = true comment = 'c';\n", "snowflake"),
+    ("create table sf2 clone sf;\ncreate schema sc2 clone sc;\n", "snowflake"),
+    ("CREATE TABLE sp (a int, b string) USING PARQUET PARTITIONED BY (b) LOCATION '/x';\n", "spark_sql"),
+    ("CREATE TABLE db2t (a int) IN ts1 INDEX IN ts2 ORGANIZE BY ROW;\n", "ibm_db2"),
+    ("CREATE TABLE plain_t (id int PRIMARY KEY, name varchar(20));\n", "sql"),
+]
+
 # ------------------------------------------------------------------ regression corpus (frozen)
 
 _CORPUS = []
